@@ -6,6 +6,7 @@ TRUSTED_BASE = [
     "stubs/deps.h: assumed contracts of the eight injected dependencies (randbytes, pbkdf2_sha256, memzero, "
     "u8_nfc, u8_nfkd, time, alloc, free)",
     "CBMC built-in models of memcpy, memset, memcmp, malloc, free",
+    "stubs/bsearch_model.h: libc bsearch is modelled by the textbook binary search (glibc's algorithm); its contract is derived inside U.lang.search, not assumed",
     "contracts/spec.h: the specification functions, written from the property statements and README",
 ]
 
@@ -61,7 +62,7 @@ P("C01", level="proof", design_ref="7/C01", units=uniq(PACK + ["U.api.encode", "
        "at its own index, tokens survive join/split, phrases survive NFC->NFKD, zh_s/zh_t overlap census.",
   note="Composition of the string-level steps (join, NFC, NFKD, split, search) from their separately proved contracts is a written argument "
        "(DESIGN 7/C01), not one machine-checked theorem; NFC/NFKD are injected dependencies (utf8proc used for the closed Unicode facts); "
-       "bsearch is trusted; byte content of the joined text inside polyseed_encode follows from the proved call sequence plus write_str's contract.",
+       "libc bsearch is modelled by the textbook algorithm (stubs/bsearch_model.h); byte content of the joined text inside polyseed_encode follows from the proved call sequence plus write_str's contract.",
   not_decided=["one end-to-end theorem over real strings (the composition above is glue)"])
 P("C02", level="proof", design_ref="7/C02", units=uniq(GF + ["L.gf.single", "L.gf.swap", "L.gf.unique", "U.api.load"] + DEC + PHR + ["U.lang.search", "U.str.split", "U.str.nfkd_lazy"]), engines=["tables", "statics"],
   technique="CBMC 6.11 contracts: dfcc-enforced contracts on the GF(2^11) layer against a Horner specification; single-error / transposition / uniqueness lemmas over the gf_poly_check contract; decoder, phrase-decoder and load contracts for the status; closed fact 'distinct words' by exhaustive evaluation",
@@ -103,7 +104,7 @@ P("C07", level="other", design_ref="7/C07, 6", units=uniq(["U.lang.search", "U.l
        "search (registry, strict sortedness, all pairs distinct, each word found at its own index, first-four-letters uniqueness, Unicode "
        "stability with utf8proc, SHA-256 against the digests recorded at the pinned release); the contract part (lang_search returns the index "
        "whose word compares equal, registry accessors, comparer selection) is proved with CBMC.",
-  note="'frozen as published' is a comparison with golden digests, not a deduction; bsearch is trusted; utf8proc is the trusted normaliser. "
+  note="'frozen as published' is a comparison with golden digests, not a deduction; libc bsearch is modelled by the textbook algorithm (stubs/bsearch_model.h); utf8proc is the trusted normaliser. "
        "KNOWN FINDING: the literal clause 'no word is a prefix of another' is false for the published English and Spanish lists "
        "(act/action, ano/anotar ...: words shorter than four letters); lists are frozen, see known_findings.json.")
 P("C08", level="proof", design_ref="7/C08", units=uniq(CMPB + CMPU + ["U.lang.get_comparer"] + DEC + STRL + PHR + CMPF), engines=["tables"],
@@ -160,7 +161,7 @@ P("C14", level="proof", design_ref="7/C14", units=uniq(uniq(["U.str.nfkd_lazy", 
        "enabled; all string loops (lazy NFKD, tokeniser, four comparers, linear search) are closed by inductive invariants with decreases "
        "clauses, so memory safety and termination hold for strings of any length; decoders/crypt/load return only documented statuses, do not "
        "write their input, and leave nothing allocated on failure.",
-  note="Caller string objects are symbolic up to 1200 bytes (nfkd_lazy) / 576 bytes (comparer keys); bsearch trusted; dependency stubs assumed.")
+  note="Caller string objects are symbolic up to 1200 bytes (nfkd_lazy) / 576 bytes (comparer keys); libc bsearch modelled by the textbook algorithm; dependency stubs assumed.")
 P("C15", level="proof", design_ref="7/C15", units=uniq(["U.api.create", "U.api.free", "U.api.load", "U.st.load", "U.gf.unpack"] + DEC + ["U.api.create@ndebug", "U.api.load@ndebug", "U.api.free@ndebug", "U.api.decode@ndebug", "U.api.decode_explicit@ndebug"]),
   technique='CBMC 6.11 contracts: allocator-ledger stubs (ghost state) in the dfcc-enforced contracts of create / load / free and the harness-enforced decoder contracts: at most one allocation, freed exactly once on failure after wiping, NULL handled, arbitrary block contents',
   text="Allocator ledger contracts: create, load and both decoders call the injected allocator at most once with sizeof(seed); every failure "
